@@ -114,7 +114,12 @@ func (vc *VC) freshRef(ref string) string {
 		return "false"
 	}
 	al := vc.heapGet(vc.entry, "alloc", ArrSort(SRef, SBool))
-	return not(sel(al, rootRef(ref)))
+	fr := not(sel(al, rootRef(ref)))
+	if vc.written["gh.pooled"] && vc.curState != nil {
+		// objects obtained from the entry pool in this function count as this goroutine's own
+		fr = or(fr, sel(vc.heapGet(vc.curState, "gh.pooled", ArrSort(SRef, SBool)), rootRef(ref)))
+	}
+	return fr
 }
 
 func (vc *VC) guardOblige(st *State, goal, what string) {
@@ -136,6 +141,7 @@ func (vc *VC) guardCheck(st *State, p place, sub string, write bool) {
 	if p.kind != pHeap {
 		return
 	}
+	vc.curState = st
 	leaf := p.owner + p.path + sub
 	rule, known, owner := guardOf(leaf)
 	if !known {
@@ -180,6 +186,7 @@ func (vc *VC) guardCheck(st *State, p place, sub string, write bool) {
 }
 
 func (vc *VC) guardCheckMap(st *State, m string, mt *types.Map, write bool) {
+	vc.curState = st
 	k := typeKey(mt)
 	var id string
 	switch {
@@ -217,6 +224,9 @@ var policyHeaps = []string{"Entry.meta.prev", "Entry.meta.next", "Entry.meta.whe
 	"Store.maintenanceTicker"}
 
 var groupHeaps = []string{"Group.m", "mapdom<map[K]*call>", "mapval<map[K]*call>", "maplen<map[K]*call>"}
+
+// flags that are only ever set, never cleared (closed flags): interference preserves "already set"
+var monotoneFlags = map[string]bool{"Shard.closed": true, "Store.closed": true}
 
 // ghost heaps that belong to a lock domain are declared in contract files by name prefix:
 // gh_sh_* (shard), gh_po_* (policy), gh_gr_* (group).
@@ -256,8 +266,19 @@ func (vc *VC) lockAcquired(st *State, id string, write bool, ownerRef string, po
 	}
 	if vc.acquired[id] {
 		for _, h := range heaps {
+			var before string
+			if monotoneFlags[h] {
+				if srt, ok := vc.heapSort[h]; ok {
+					before = vc.heapGet(st, h, srt)
+				}
+			}
 			vc.havocHeap(st, h)
 			delete(vc.written, h)
+			if before != "" {
+				// rely: other goroutines only ever set this flag (every store to it is checked to store true)
+				after := vc.heapGet(st, h, vc.heapSort[h])
+				vc.assume(st, fmt.Sprintf("(forall ((x?mo Ref)) (=> (select %s x?mo) (select %s x?mo)))", before, after))
+			}
 		}
 	}
 	vc.acquired[id] = true
